@@ -868,7 +868,7 @@ func c03Exec(cs *c03Case, set exporter.Settings, probe func(run *c03Run)) *c03Ru
 		return run
 	}
 	sendCtx, cancelSends := context.WithCancel(bg)
-	var probeMu sync.Mutex
+	probeSem := make(chan struct{}, 1)
 	var wg sync.WaitGroup
 	shutDone := make(chan struct{})
 	for _, a := range cs.acts {
@@ -886,9 +886,9 @@ func c03Exec(cs *c03Case, set exporter.Settings, probe func(run *c03Run)) *c03Ru
 			time.Sleep(a.at)
 			if a.shutdown {
 				if probe != nil {
-					probeMu.Lock() // a probe of a send in the same instant may be running
+					probeSem <- struct{}{} // a probe of a send in the same instant may be running (channel: a durable block for synctest)
 					probe(run)
-					probeMu.Unlock()
+					<-probeSem
 				}
 				if cs.failSet {
 					st.mu.Lock()
@@ -905,10 +905,14 @@ func c03Exec(cs *c03Case, set exporter.Settings, probe func(run *c03Run)) *c03Ru
 			for j := range ids {
 				ids[j] = a.rid*100 + j
 			}
-			if probe != nil && a.rid%2 == 0 && probeMu.TryLock() {
-				// observation point in the middle of the run (quiescent: the probe waits until every other goroutine is blocked)
-				probe(run)
-				probeMu.Unlock()
+			if probe != nil && a.rid%2 == 0 {
+				select {
+				case probeSem <- struct{}{}:
+					// observation point in the middle of the run (quiescent: the probe waits until every other goroutine is blocked)
+					probe(run)
+					<-probeSem
+				default:
+				}
 			}
 			run.log(c03Ev{kind: "ss", id: a.rid, ids: ids})
 			e := built.consume(sendCtx, ids)
